@@ -1,5 +1,5 @@
 // auto-generated: "lalrpop 0.23.1"
-// sha3: 45279927f481438e310bae6a350e79be6ac94bddbf1486e1871ac91bd893d433
+// sha3: 2d93dddff03e21c86da15bbee95692961f8363890de08e2ce8484e4e84a52c0c
 use crate::rt::*;
 #[allow(unused_extern_crates)]
 extern crate lalrpop_util as __lalrpop_util;
@@ -425,22 +425,20 @@ fn __action1<
     (_, l, _): (i64, i64, i64),
     (_, c0, _): (i64, Tree, i64),
     (_, c1, _): (i64, Tok, i64),
-    (_, pL2, _): (i64, i64, i64),
     (_, r, _): (i64, i64, i64),
 ) -> Tree
 {
-    { probe("S#0", 2, 'L', pL2); node("S#0", l, r, vec![Tree::from(c0), Tree::from(c1)]) }
+    node("S#0", l, r, vec![Tree::from(c0), Tree::from(c1)])
 }
 
 #[allow(clippy::too_many_arguments, clippy::needless_lifetimes, clippy::just_underscores_and_digits, clippy::extra_unused_type_parameters)]
 fn __action2<
 >(
     (_, l, _): (i64, i64, i64),
-    (_, pL0, _): (i64, i64, i64),
     (_, r, _): (i64, i64, i64),
 ) -> Tree
 {
-    { probe("L#0", 0, 'L', pL0); node("L#0", l, r, vec![]) }
+    node("L#0", l, r, vec![])
 }
 
 #[allow(clippy::too_many_arguments, clippy::needless_lifetimes, clippy::just_underscores_and_digits, clippy::extra_unused_type_parameters)]
@@ -460,12 +458,11 @@ fn __action4<
 >(
     (_, l, _): (i64, i64, i64),
     (_, c0, _): (i64, Tree, i64),
-    (_, pL1, _): (i64, i64, i64),
     (_, c1, _): (i64, Tok, i64),
     (_, r, _): (i64, i64, i64),
 ) -> Tree
 {
-    { probe("L#2", 1, 'L', pL1); node("L#2", l, r, vec![Tree::from(c0), Tree::from(c1)]) }
+    node("L#2", l, r, vec![Tree::from(c0), Tree::from(c1)])
 }
 
 #[allow(clippy::needless_lifetimes, clippy::clone_on_copy)]
@@ -497,21 +494,13 @@ fn __action7<
 {
     let __start0 = __0.0.clone();
     let __end0 = __0.0.clone();
-    let __start1 = __0.0.clone();
-    let __end1 = __0.0.clone();
     let __temp0 = __action6(
         &__start0,
         &__end0,
     );
     let __temp0 = (__start0, __temp0, __end0);
-    let __temp1 = __action6(
-        &__start1,
-        &__end1,
-    );
-    let __temp1 = (__start1, __temp1, __end1);
     __action2(
         __temp0,
-        __temp1,
         __0,
     )
 }
@@ -551,22 +540,14 @@ fn __action9<
 {
     let __start0 = __0.0.clone();
     let __end0 = __0.0.clone();
-    let __start1 = __0.2.clone();
-    let __end1 = __1.0.clone();
     let __temp0 = __action6(
         &__start0,
         &__end0,
     );
     let __temp0 = (__start0, __temp0, __end0);
-    let __temp1 = __action6(
-        &__start1,
-        &__end1,
-    );
-    let __temp1 = (__start1, __temp1, __end1);
     __action4(
         __temp0,
         __0,
-        __temp1,
         __1,
         __2,
     )
@@ -583,23 +564,15 @@ fn __action10<
 {
     let __start0 = __0.0.clone();
     let __end0 = __0.0.clone();
-    let __start1 = __1.2.clone();
-    let __end1 = __2.0.clone();
     let __temp0 = __action6(
         &__start0,
         &__end0,
     );
     let __temp0 = (__start0, __temp0, __end0);
-    let __temp1 = __action6(
-        &__start1,
-        &__end1,
-    );
-    let __temp1 = (__start1, __temp1, __end1);
     __action1(
         __temp0,
         __0,
         __1,
-        __temp1,
         __2,
     )
 }
